@@ -196,7 +196,7 @@ Act_ImmediatelyRetrievable == [][ImmediatelyRetrievable]_vars
 GetCoherent ==
   (op'.name = "get" /\ op'.res.hit)
      => /\ op'.res = last[<<op'.route, op'.host>>]
-        /\ clock - op'.res.t <= TimeLimit
+        /\ clock' - op'.res.t <= TimeLimit      \* (clock' = clock in Get; the trace spec moves the clock with the step)
 Act_GetCoherent == [][GetCoherent]_vars
 
 \* vacuity witnesses (negations are checked and must be violated)
